@@ -41,7 +41,10 @@ def subst(expr, env):
 MAX_PATHS = 64
 
 
-def paths(stmts, env=None, pure_calls=()):
+CALLS = '@calls'
+
+
+def paths(stmts, env=None, pure_calls=(), effects=False):
   """[(conds, env, ended)] for every path through `stmts`.  conds: [(test expr in entry terms, polarity)];
   env: location text -> expr in entry terms; ended: 'fall' | 'continue' | 'return' | 'break'."""
   out = []
@@ -98,6 +101,12 @@ def paths(stmts, env=None, pure_calls=()):
           raise PathError('too many paths')
         return
       if isinstance(st, ast.Assert):
+        continue
+      if effects and isinstance(st, ast.Expr) and isinstance(st.value, ast.Call):
+        # an effect call is recorded, in order, under the pseudo location '@calls' (its arguments in entry terms)
+        env = dict(env)
+        prev = env.get(CALLS)
+        env[CALLS] = ast.Tuple(elts=(list(prev.elts) if prev is not None else []) + [subst(st.value, dict((k, v) for k, v in env.items() if k != CALLS))], ctx=ast.Load())
         continue
       raise PathError('unsupported statement: %s' % norm_text(st)[:60])
     out.append((conds, env, 'fall'))
